@@ -353,7 +353,8 @@ r_buf_rpos_check(r_buf_p r_buf, r_buf_rpos_p rpos, size_t *drop_size_ret) {
 	if (((size_t)(rpos->round_num + 1)) >= r_buf->round_num) { /* rpos > wpos */
 		drop_size = 0;
 	} else { /* rpos << wpos: wery slow reader. */
-		drop_size = (r_buf->size * (r_buf->round_num - rpos->round_num));
+		/* Reader round tail + full rounds + current round head. */
+		drop_size = (r_buf->size * (1 + r_buf->round_num - rpos->round_num));
 	}
 	rpos->iov_off = 0;
 	rpos->iov_index = (r_buf->iov_index + 1);
